@@ -168,6 +168,14 @@ def gen_static_mix(rng):
         items.append(kdef)
     items.append(('label', 'fwd'))
     items.insert(rng.range(0, len(items)), kkdef)
+    if rng.chance(0.3):
+        # a constant whose value is (or guards) an assertion: address-free or address-dependent, passing or failing (F77),
+        # possibly read by a data element
+        cond = rng.choice(['1 == 1', '1 == 2', '$ >= 0', '$ > 100', 'lbl < 300', 'lbl < 1', 'fwd < 2', 'fwd >= 0', 'k0 < 5', 'kk >= 0'])
+        body = rng.choice(['assert(%s)', '{ assert(%s), 7 }', '{ assert(%s), lbl }'])
+        items.insert(rng.range(0, len(items)), ('const', 'ka', body % cond))
+        if rng.chance(0.5):
+            items.insert(rng.range(0, len(items)), ('data', 8, [rng.choice(['ka', 'ka + 1'])]))
     p.items = items
     p.names = [it[1] for it in items if it[0] in ('label', 'const')]     # declaration order
     return p
